@@ -59,7 +59,7 @@ def check_property_theorems(pid):
     if not os.path.exists(f):
         return 0, 0, [], []
     src = open(f).read()
-    names = re.findall(r"^\s*(?:Theorem|Lemma|Corollary)\s+([A-Za-z0-9_']+)", src, re.M)
+    names = re.findall(r"^\s*(?:Theorem|Lemma|Corollary|Example)\s+([A-Za-z0-9_']+)", src, re.M)
     rc, out = sh(["coqc", "-Q", "theories", "Ice", "-Q", "proofs", "IceProofs", "-Q", "properties", "IceProps",
                   os.path.join("properties", pid + ".v")], cwd=COQ, timeout=1200)
     if rc != 0:
